@@ -16,6 +16,13 @@ down to 5e-5, log-moneyness of the order of w), vs the harness's own reverse-mod
 autogreek on user pricers with the given parameterisation and the pricer's parameter names chosen independently (spot / moneyness /
 log_moneyness x volatility / variance wherever autogreek derives one from the other), broadcastable shapes, volatilities down to 2e-4
 (variances down to 4e-8) and pricers whose vega depends on the volatility at every scale.
+Declarations (predicate; Black-Scholes prices also to the model): autogreek (and gamma_from_delta) on user pricers whose parameters are keyword-only
+(after `*`, or after a parameter bound by keyword with functools.partial), defaulted, bound by position, methods and callable objects - every
+declaration x every Greek on every tier; the value passed to autogreek is the value the pricer is evaluated at (defaults / bindings hold decoys).
+The same for the functional and module Black-Scholes prices behind `def pricer(*, ...)` wrappers and functools.partial keyword bindings.
+Global autograd state (predicate + model): every module Greek, the modules' forward, the functional forms, autogreek on module prices and on
+user pricers inside torch.no_grad() / set_grad_enabled(False) / inference_mode() and after set_default_dtype(float64) (float64 and float32
+data): the routes that do not depend on the caller's gradient mode have to answer, every value that comes back has to be the derivative.
 """
 import math
 from common import *  # noqa
@@ -230,6 +237,118 @@ def natural_scale(fam, greek, k, t, v):
     if fam in ("european", "lookback"):
         return {"delta": 1.0, "gamma": 1.0 / (k * w), "vega": k * math.sqrt(t), "theta": k * v / math.sqrt(t)}[greek]
     return {"delta": 1.0 / (k * w), "gamma": 1.0 / (k * w) ** 2, "vega": 1.0 / v, "theta": 1.0 / t}[greek]
+
+
+PRICER_DECLS = ("kwonly", "kwonly-tail", "kwonly-defaults", "partial-kw", "partial-kw-defaults", "partial-positional",
+                "bound-method", "callable-object", "positional-defaults")
+
+DOMAIN = {"spot": (0.5, 2.0), "moneyness": (0.5, 2.0), "log_moneyness": (-0.5, 0.5), "volatility": (0.1, 0.8), "variance": (0.01, 0.6),
+          "time_to_maturity": (0.2, 2.0)}
+
+
+def declared_pricer(g, torch, core, spotpar, volpar, with_strike, decl, strike_given):
+    """The pricer scale * core(x, vol, t) of named_pricer with one more parameter `scale` (a plain number that autogreek only hands
+    through), its parameters in a random order and DECLARED in the way `decl` says:
+      kwonly / kwonly-tail / kwonly-defaults   all / the trailing parameters after a bare `*` (keyword-only), without / with defaults
+      partial-kw / partial-kw-defaults         functools.partial(pricer, scale=<bound>): the parameters after `scale` become keyword-only in the
+                                               signature of the partial object (without / with defaults of their own)
+      partial-positional                       functools.partial(pricer, <bound scale>) - the first parameter is bound by position
+      bound-method / callable-object           a method of a user object / an object with __call__ (with or without a `*`, with or without defaults)
+      positional-defaults                      ordinary parameters, the trailing ones with defaults
+    Every default is a legal value DIFFERENT from the one the caller passes (tensor parameters: a 0-dim float64 tensor inside the domain;
+    strike: another number; scale: 1.0), so a parameter that is passed but not used shows in the value.
+    returns (pricer, description, fallback) - fallback = the scale in force when the caller passes none (None: it has to be passed)"""
+    from functools import partial
+    if spotpar == "spot":
+        xs = "spot"
+    elif spotpar == "moneyness":
+        xs = "moneyness * strike" if with_strike else "moneyness"
+    else:
+        xs = "torch.exp(log_moneyness) * strike" if with_strike else "torch.exp(log_moneyness)"
+    vs = "volatility" if volpar == "volatility" else "torch.sqrt(variance)"
+    names = [spotpar] + (["strike"] if with_strike else []) + [volpar, "time_to_maturity"]
+    g.r.shuffle(names)
+    bound = g.choice([1.25, 0.5, 3.0])
+    if decl == "partial-positional":
+        names = ["scale"] + names
+    else:
+        names.insert(g.randint(0, len(names) - 1), "scale")          # never the last one: something follows `scale`
+    L = len(names)
+    star = {"kwonly": 0, "kwonly-tail": g.randint(1, L - 1), "kwonly-defaults": g.randint(0, L - 1)}.get(decl)
+    if decl in ("bound-method", "callable-object"):
+        star = g.choice([None, 0, g.randint(1, L - 1)])
+    first_default = None
+    if decl == "kwonly-defaults" or (decl in ("bound-method", "callable-object") and star is not None and g.chance(0.5)):
+        first_default = star
+    elif decl == "partial-kw-defaults":
+        first_default = names.index("scale")
+    elif decl == "positional-defaults":
+        first_default = g.randint(0, L - 1)
+    ns = {"core": core, "torch": torch}
+    parts, shown = [], []
+    for i, nm in enumerate(names):
+        if star == i:
+            parts.append("*")
+            shown.append("*")
+        if first_default is not None and i >= first_default:
+            if nm == "strike":
+                d = 2.0 if strike_given == 1.0 else 1.0
+            elif nm == "scale":
+                d = 1.0
+            else:
+                d = torch.tensor(g.r.uniform(*DOMAIN[nm]), dtype=torch.float64)
+            ns["_d_" + nm] = d
+            parts.append(f"{nm}=_d_{nm}")
+            shown.append(f"{nm}={float(d):.4g}")
+        else:
+            parts.append(nm)
+            shown.append(nm)
+    body = f"scale * core({xs}, {vs}, time_to_maturity, torch)"
+    if decl == "bound-method":
+        exec(f"class Book:\n    def price(self, {', '.join(parts)}):\n        return {body}\npricer = Book().price\n", ns)
+        desc = f"Book().price(self, {', '.join(shown)})"
+    elif decl == "callable-object":
+        exec(f"class Book:\n    def __call__(self, {', '.join(parts)}):\n        return {body}\npricer = Book()\n", ns)
+        desc = f"Book().__call__(self, {', '.join(shown)})"
+    else:
+        exec(f"def pricer({', '.join(parts)}):\n    return {body}\n", ns)
+        desc = f"pricer({', '.join(shown)})"
+    pricer = ns["pricer"]
+    fallback = 1.0 if "_d_scale" in ns else None
+    if decl in ("partial-kw", "partial-kw-defaults"):
+        pricer, desc, fallback = partial(pricer, scale=bound), f"functools.partial({desc}, scale={bound})", bound
+    elif decl == "partial-positional":
+        pricer, desc, fallback = partial(pricer, bound), f"functools.partial({desc}, {bound})", bound
+    return pricer, desc, fallback
+
+
+def first_mismatch(got, ref, rel, floor):
+    """(index, value, reference) of the first element with |value - reference| > rel * max(|reference|, floor), or None"""
+    got, ref = got.detach().to(ref.dtype).reshape(-1), ref.reshape(-1)
+    for j in range(got.numel()):
+        a, b = float(got[j]), float(ref[j])
+        if not abs(a - b) <= rel * max(abs(b), floor):
+            return j, a, b
+    return None
+
+
+GRAD_STATES = ("no_grad", "set_grad_enabled(False)", "inference_mode", "default_dtype=float64", "default_dtype=float64+no_grad")
+
+
+def may_refuse(state, route, fam, greek):
+    """Which routes may answer with autograd's RuntimeError instead of a value when the caller has changed the global autograd state.
+    A route that differentiates by reverse mode AT CALL TIME cannot work once the caller has switched gradient recording off, unless it
+    switches it on again itself: the modules do (they are the hedging models that Hedger.price / compute_pnl and WhalleyWilmott evaluate
+    inside torch.no_grad()), pfhedge.autogreek.* and the functional lookback Greeks (autogreek of the functional price) do not.  Inside
+    torch.inference_mode() recording cannot be switched on again by anybody, so there only the closed forms have to answer (European,
+    European binary: everything; American binary: the functional forms and the module's delta).  A changed default dtype excuses nothing.
+    Whenever a value IS returned it has to be the derivative."""
+    if state == "inference_mode":
+        closed = fam in ("european", "european_binary") or (fam == "american_binary" and (route == "functional" or greek == "delta"))
+        return route.startswith("autogreek") or not closed
+    if "no_grad" in state or state == "set_grad_enabled(False)":
+        return route.startswith("autogreek") or (route == "functional" and fam == "lookback")
+    return False
 
 
 def check(ctx):
@@ -465,6 +584,241 @@ def check(ctx):
         if fd is not None:
             ctx.fail(f"bs_lookback_{greek} is not the {greek} (derivative) of bs_lookback_price", case, key=f"bs_lookback_{greek}:not-derivative",
                      detail={"functional": got, "finite_difference": fd})
+    # ---------------- the Black-Scholes prices behind KEYWORD-ONLY parameters: autogreek on a user wrapper `def pricer(*, ...)` around the
+    # functional / the module price and on functools.partial(price, <parameter>=tensor) - binding a parameter by keyword makes every later
+    # parameter (time to maturity, volatility, the strike of bs_european_price / bs_lookback_price) keyword-only in the signature autogreek
+    # reads.  The value handed to autogreek is the value the price has to be evaluated at: keyword-only parameters with defaults carry
+    # decoys (other legal values), a bound parameter is either the right one (and not passed again) or a decoy overridden by the call.
+    # Reference: the harness's reverse-mode derivative of the same price; element by element to the model as well (op bs_dual).
+    from functools import partial as partial_
+    FAMS = ("european", "european_binary", "american_binary", "lookback")
+    FLOORS = lambda fam, greek, k_: 0.05 * {"delta": 1.0, "gamma": 1.0 / k_, "vega": k_ if fam in ("lookback", "european") else 1.0,
+                                            "theta": k_ if fam in ("lookback", "european") else 1.0}[greek]
+    WRT = {"delta": "spot", "gamma": "spot", "vega": "vol", "theta": "time"}
+
+    def tame_point(fam, n_, dtype=torch.float64):
+        """n_ points of the box of the sessions (American binary in the continuation region, lookback away from the kink max = strike)"""
+        s0 = [g.r.uniform(-0.5, 0.5) for _ in range(n_)]
+        if fam == "american_binary":
+            s0 = [-abs(x) - 0.02 for x in s0]
+            m0 = [min(-0.01, x + g.r.uniform(0, 0.3)) for x in s0]
+        else:
+            m0 = [x + g.r.uniform(0, 0.4) for x in s0]
+            m0 = [x + 0.05 if abs(x) < 0.02 else x for x in m0]
+        t0 = [g.r.uniform(0.02, 2.0) for _ in range(n_)]
+        v0 = [g.r.uniform(0.05, 0.9) for _ in range(n_)]
+        return tuple(torch.tensor(x, dtype=dtype) for x in (s0, m0, t0, v0))
+
+    def to_dual(meta, fam, greek, call, k_, s_, m_, t_, v_, val):
+        """one bs_dual request per element of a Greek obtained from float64 inputs"""
+        pd_ = fam in ("american_binary", "lookback")
+        val = val.detach().reshape(-1)
+        for j in range(val.numel()):
+            sj, mj, tj, vj = (float(x.detach().reshape(-1)[j]) for x in (s_, m_, t_, v_))
+            grid_dual.append(({"op": "bs_dual", "fn": fam + "_price", "call": call, "wrt": WRT[greek], "order": 2 if greek == "gamma" else 1,
+                               "elems": [enc_flt([sj, tj, vj, k_, mj if pd_ else sj])]},
+                              (meta | {"greek": greek, "module": fam, "element": j, "s": sj, "m": mj if pd_ else None, "t": tj, "v": vj, "k": k_},
+                               float(val[j]))))
+
+    for _ in range(1 if ctx.tier == "quick" else 10):
+        for fam in FAMS:
+            for greek in ("delta", "gamma", "vega", "theta"):
+                for wrapper in ("kwonly-def", "partial-kw"):
+                    pd = fam in ("american_binary", "lookback")
+                    call = g.chance(0.5) if not pd else True
+                    k_ = g.choice(DYADIC_STRIKES) if g.chance(0.5) else g.r.uniform(0.4, 2.5)
+                    s_, m_, t_, v_ = tame_point(fam, g.small((1, 2, 3)))
+                    functional = g.chance(0.5)
+                    mod = MODS[fam](strike=k_) if pd else MODS[fam](call=call, strike=k_)
+                    target = getattr(fnl_, f"bs_{fam}_price") if functional else mod.price
+                    fixed = {}                                         # what the price needs besides the tensors and is no business of autogreek
+                    if functional and not pd:
+                        fixed["call"] = call
+                    takes_strike = functional and fam in ("european", "lookback")
+                    right = {"log_moneyness": s_, "time_to_maturity": t_, "volatility": v_}
+                    if pd:
+                        right["max_log_moneyness"] = m_
+                    decoy = {"log_moneyness": s_ - 0.1, "max_log_moneyness": m_ * 0.5 if fam == "american_binary" else m_ + 0.1,
+                             "time_to_maturity": t_ * g.r.uniform(1.3, 2.0), "volatility": v_ * g.r.uniform(0.4, 0.7),
+                             "strike": 1.0 if k_ != 1.0 else 2.0}
+                    names = [nm for nm in ("log_moneyness", "max_log_moneyness", "time_to_maturity", "volatility") if nm in right] \
+                        + (["strike"] if takes_strike else [])
+                    params = dict(right) | {"strike": k_}
+                    if wrapper == "kwonly-def":
+                        g.r.shuffle(names)
+                        star = g.choice([0, g.randint(1, len(names) - 1)])
+                        with_defaults = g.chance(0.5)
+                        ns = {"target": target, "fixed": fixed} | {"_d_" + nm: decoy[nm] for nm in names}
+                        parts, shown = [], []
+                        for i, nm in enumerate(names):
+                            if i == star:
+                                parts.append("*")
+                                shown.append("*")
+                            parts.append(f"{nm}=_d_{nm}" if (with_defaults and i >= star) else nm)
+                            shown.append(f"{nm}=<another value>" if (with_defaults and i >= star) else nm)
+                        exec(f"def pricer({', '.join(parts)}):\n    return target({', '.join(nm + '=' + nm for nm in names)}, **fixed)\n", ns)
+                        pricer = ns["pricer"]
+                        desc = f"def pricer({', '.join(shown)})"
+                    else:
+                        wrt_name = {"delta": "log_moneyness", "gamma": "log_moneyness", "vega": "volatility", "theta": "time_to_maturity"}[greek]
+                        cands = [nm for nm in names if nm not in (wrt_name, "strike", "log_moneyness" if greek in ("delta", "gamma") else "")]
+                        b_ = g.choice(cands)
+                        overridden = g.chance(0.5)
+                        pricer = partial_(target, **{b_: decoy[b_] if overridden else right[b_]}, **fixed)
+                        if not overridden:
+                            del params[b_]
+                        desc = f"functools.partial(price, {b_}=<{'another value, overridden by the call' if overridden else 'the value, not passed again'}>)"
+                    price_of = lambda S, t, v: target(**(right | {"log_moneyness": (S / k_).log(), "time_to_maturity": t, "volatility": v}
+                                                         | ({"strike": k_} if takes_strike else {}) | fixed))
+                    ref = harness_greeks(torch, price_of, (s_.exp() * k_), t_, v_)[greek]
+                    site = f"autogreek[{wrapper}:{'bs_' + fam + '_price' if functional else fam + '.price'}]"
+                    st, val, _ = call_impl(getattr(ag, greek), pricer, **params)
+                    case = {"signature": desc, "family": fam, "greek": greek, "price": "functional" if functional else "module", "call": call, "k": k_,
+                            "s": s_.tolist(), "m": m_.tolist() if pd else None, "t": t_.tolist(), "v": v_.tolist(), "passed": sorted(params)}
+                    ctx.case(case, True, tag="bs_price_keyword_only")
+                    ctx.stats[f"bs_price_keyword_only={wrapper}:{fam}.{greek}"] += 1
+                    ctx.traces += 1
+                    if st != "ok":
+                        ctx.fail("autogreek raised on a Black-Scholes price whose parameters are keyword-only (declared after `*` / after a parameter "
+                                 "bound by keyword with functools.partial)", case, key=f"{site}.{greek}:keyword-only:error", detail=val)
+                        continue
+                    bad = first_mismatch(val, ref, 1e-10, FLOORS(fam, greek, k_)) if tuple(val.shape) == tuple(ref.shape) else (None, list(val.shape), list(ref.shape))
+                    if bad:
+                        ctx.fail(f"autogreek.{greek} of a Black-Scholes price with keyword-only parameters is not the derivative of that price at the "
+                                 "values passed", case, key=f"{site}.{greek}:keyword-only:not-derivative",
+                                 detail={"element": bad[0], "autogreek": bad[1], "derivative_of_price": bad[2]})
+                        continue
+                    to_dual({"signature": desc, "route": site}, fam, greek, call, k_, s_, m_, t_, v_, val)
+    # ---------------- Greeks under a changed GLOBAL autograd state: inside torch.no_grad() / torch.set_grad_enabled(False) / torch.inference_mode()
+    # and after torch.set_default_dtype(torch.float64) (float64 and float32 data).  Every state x family x Greek through the module (always;
+    # for delta also through the module's forward, the call a hedger makes) and one more route (functional form, autogreek on the module's
+    # price); see may_refuse for what may answer
+    # with autograd's RuntimeError - a value that is returned has to be the derivative in every state.  References are taken before the
+    # state is entered; float64 results also go to the model (op bs_dual).
+    import contextlib
+
+    @contextlib.contextmanager
+    def default_float64():
+        old = torch.get_default_dtype()
+        torch.set_default_dtype(torch.float64)
+        try:
+            yield
+        finally:
+            torch.set_default_dtype(old)
+
+    def run_in_state(state, fn_, *a, **kw):
+        grad0, dtype0 = torch.is_grad_enabled(), torch.get_default_dtype()
+        try:
+            with contextlib.ExitStack() as stack:
+                if "default_dtype=float64" in state:
+                    stack.enter_context(default_float64())
+                if "no_grad" in state:
+                    stack.enter_context(torch.no_grad())
+                if state == "set_grad_enabled(False)":
+                    stack.enter_context(torch.set_grad_enabled(False))
+                if state == "inference_mode":
+                    stack.enter_context(torch.inference_mode())
+                return call_impl(fn_, *a, **kw)
+        finally:
+            torch.set_grad_enabled(grad0)
+            torch.set_default_dtype(dtype0)
+
+    def judge_state(site, route, fam, greek, state, st, val, ref, rel, floor, f64, case):
+        """True iff a value came back and it is the derivative"""
+        if st != "ok":
+            if may_refuse(state, route, fam, greek) and val == "runtime_error":
+                ctx.stats[f"grad_state_refused={state}:{route}"] += 1
+                return False
+            ctx.fail(f"{site}.{greek} raised under the global state {state} (the same call answers in the default state, and this route does not "
+                     "depend on the caller's gradient mode)", case, key=f"{site}.{greek}:{state}:error", detail=val)
+            return False
+        if tuple(val.shape) != tuple(ref.shape):
+            ctx.fail(f"{site}.{greek} under {state}: shape {tuple(val.shape)} instead of {tuple(ref.shape)}", case,
+                     key=f"{site}.{greek}:{state}:not-derivative", detail={"shape": list(val.shape)})
+            return False
+        if f64 and val.dtype != torch.float64:
+            ctx.fail(f"{site}.{greek} of float64 inputs is not float64 under {state}", case, key=f"{site}.{greek}:{state}:dtype", detail=str(val.dtype))
+            return False
+        bad = first_mismatch(val, ref, rel, floor)
+        if bad:
+            ctx.fail(f"{site}.{greek} is not the derivative of the price under the global state {state}", case,
+                     key=f"{site}.{greek}:{state}:not-derivative", detail={"element": bad[0], "greek": bad[1], "derivative_of_price": bad[2]})
+            return False
+        return True
+
+    for _ in range(1 if ctx.tier == "quick" else 8):
+        for state in GRAD_STATES:
+            for fam in FAMS:
+                for greek in ("delta", "gamma", "vega", "theta"):
+                    pd = fam in ("american_binary", "lookback")
+                    call = g.chance(0.5) if not pd else True
+                    k_ = g.choice(DYADIC_STRIKES) if g.chance(0.5) else g.r.uniform(0.4, 2.5)
+                    f64 = not ("default_dtype" in state and g.chance(0.5))
+                    s_, m_, t_, v_ = tame_point(fam, g.small((1, 2, 3)), torch.float64 if f64 else torch.float32)
+                    mod = MODS[fam](strike=k_) if pd else MODS[fam](call=call, strike=k_)
+                    s6, m6, t6, v6 = (x.to(torch.float64) for x in (s_, m_, t_, v_))
+                    pr = (lambda S, t, v: mod.price((S / k_).log(), m6, t, v)) if pd else (lambda S, t, v: mod.price((S / k_).log(), t, v))
+                    ref = harness_greeks(torch, pr, s6.exp() * k_, t6, v6)[greek]
+                    # float64: both sides double-precision evaluations of the same smooth price on a tame box, as in the sessions; float32 data:
+                    # the reference is the double-precision derivative at the same (float32) point, single-precision rounding through one or two
+                    # reverse passes stays below 1e-4 of max(|Greek|, floor) on this box (measured), a wrong Greek is off by O(1)
+                    rel, floor = (1e-10 if f64 else 2e-3), FLOORS(fam, greek, k_)
+                    routes = ["module", g.choice(["functional", "functional", "autogreek"])] + (["forward"] if greek == "delta" else [])
+                    for route in routes:
+                        C = lambda x: x.clone()
+                        args = (C(s_), C(m_), C(t_), C(v_)) if pd else (C(s_), C(t_), C(v_))
+                        rref = ref
+                        if route == "module":
+                            site = f"module:{fam}"
+                            st, val, _ = run_in_state(state, getattr(mod, greek), *args)
+                        elif route == "forward":
+                            site = f"forward:{fam}"
+                            st, val, _ = run_in_state(state, mod, torch.stack(args, dim=-1))
+                            rref = ref.unsqueeze(-1)
+                        elif route == "functional":
+                            site = f"bs_{fam}"
+                            st, val, _ = run_in_state(state, call_bs, torch, f"{fam}_{greek}", C(s_), C(t_), C(v_), k_, C(m_), call)
+                        else:
+                            site = f"autogreek[{fam}.price]"
+                            params = {"log_moneyness": C(s_), "time_to_maturity": C(t_), "volatility": C(v_), "strike": k_}
+                            if pd:
+                                params["max_log_moneyness"] = C(m_)
+                            st, val, _ = run_in_state(state, getattr(ag, greek), mod.price, **params)
+                        case = {"global_state": state, "route": route, "family": fam, "greek": greek, "call": call, "k": k_,
+                                "dtype": "float64" if f64 else "float32", "s": s_.tolist(), "m": m_.tolist() if pd else None, "t": t_.tolist(), "v": v_.tolist()}
+                        ctx.case(case, True, tag="grad_state")
+                        ctx.stats[f"grad_state={state}:{route}:{fam}"] += 1
+                        ctx.traces += 1
+                        if judge_state(site, route, fam, greek, state, st, val, rref, rel, floor, f64, case) and f64:
+                            to_dual({"global_state": state, "route": site}, fam, greek, call, k_, s_, m_, t_, v_, val)
+            # user pricers in the same state (pfhedge.autogreek may refuse where recording is off, see may_refuse)
+            for greek in ("delta", "gamma", "vega", "theta"):
+                spotpar, volpar = g.choice(["spot", "moneyness", "log_moneyness"]), g.choice(["volatility", "variance"])
+                with_strike = spotpar != "spot" and g.chance(0.5)
+                core, form = make_pricer(g, torch, spotpar, volpar)
+                pricer = named_pricer(torch, core, spotpar, volpar, with_strike)
+                n_ = g.small((1, 2, 3))
+                f64 = not ("default_dtype" in state and g.chance(0.5))
+                dt = torch.float64 if f64 else torch.float32
+                Kf = g.choice(DYADIC_STRIKES[:5])
+                S_ = torch.tensor([g.r.uniform(0.5, 2.0) for _ in range(n_)], dtype=dt)
+                V_ = torch.tensor([g.r.uniform(0.1, 0.8) for _ in range(n_)], dtype=dt)
+                T_ = torch.tensor([g.r.uniform(0.2, 2.0) for _ in range(n_)], dtype=dt)
+                x_of = (lambda S: S) if (spotpar == "spot" or with_strike) else (lambda S: S / Kf)
+                ref = harness_greeks(torch, lambda S, t, v: core(x_of(S), v, t, torch), S_.double(), T_.double(), V_.double())[greek]
+                params = {spotpar: S_.clone() if spotpar == "spot" else S_ / Kf if spotpar == "moneyness" else (S_.double() / Kf).log().to(dt),
+                          volpar: V_.clone() if volpar == "volatility" else V_.double().square().to(dt), "time_to_maturity": T_.clone()}
+                if spotpar != "spot":
+                    params["strike"] = Kf
+                st, val, _ = run_in_state(state, getattr(ag, greek), pricer, **params)
+                case = {"global_state": state, "route": "autogreek[user]", "greek": greek, "spot_param": spotpar, "vol_param": volpar,
+                        "pricer_has_strike": with_strike, "form": form, "K": Kf, "dtype": "float64" if f64 else "float32",
+                        "S": S_.tolist(), "vol": V_.tolist(), "t": T_.tolist()}
+                ctx.case(case, True, tag="grad_state")
+                ctx.stats[f"grad_state={state}:autogreek[user]"] += 1
+                ctx.traces += 1
+                # float32 data: the moneyness / log-moneyness / variance handed over are themselves rounded to single precision
+                judge_state(f"autogreek[user:{spotpar}/{volpar}]", "autogreek[user]", "user", greek, state, st, val, ref, 1e-9 if f64 else 5e-3, 1.0, f64, case)
     for req_, meta_ in grid_dual:
         dual_reqs.append(req_)
         dual_meta.append(meta_)
@@ -614,6 +968,64 @@ def check(ctx):
                          "pricer with respect to the spot / volatility / (minus) time", case, key=key,
                          detail={"element": j, "autogreek": a, "derivative_of_pricer": b, "rel": abs(a - b) / max(abs(b), 1.0)})
                 break
+    # ---------------- autogreek on user pricers: HOW the pricer declares its parameters (see declared_pricer: keyword-only after `*`, keyword-only
+    # through functools.partial, defaults, bound methods, callable objects), every declaration x every Greek (and gamma_from_delta, the
+    # derivative of a user's delta formula) on every tier, the parameterisation given / the names of the pricer as in the section above.
+    # The value passed is the value the pricer has to be evaluated at - defaults and partial bindings hold other legal values; `scale` is
+    # a parameter autogreek has no meaning for and only hands through (passed, or left to its default / its partial binding).
+    for _ in range(3 if ctx.tier == "quick" else 30):
+        for greek in ("delta", "gamma", "vega", "theta", "gamma_from_delta"):
+            for decl in PRICER_DECLS:
+                base = "delta" if greek == "gamma_from_delta" else greek
+                given_spot = g.choice(["spot", "spot+strike", "moneyness", "log_moneyness"])
+                given_vol = g.choice(["volatility", "variance"])
+                has_strike = given_spot != "spot"
+                gs = given_spot.split("+")[0]
+                p_spot = g.choice(["spot", "moneyness", "log_moneyness"]) if (base in ("delta", "gamma") and has_strike) else gs
+                p_vol = g.choice(["volatility", "variance"]) if base == "vega" else given_vol
+                with_strike = has_strike and g.chance(0.5)
+                core, form = make_vol_pricer(g, torch) if g.chance(0.3) else make_pricer(g, torch, p_spot, p_vol)
+                Kf = g.choice(DYADIC_STRIKES[:5]) if g.chance(0.5) else g.r.uniform(0.4, 2.5)
+                strike_form = "float" if Kf in DYADIC_STRIKES else "float64-tensor"
+                K = Kf if strike_form == "float" else torch.tensor(Kf, dtype=torch.float64)
+                pricer, desc, fallback = declared_pricer(g, torch, core, p_spot, p_vol, with_strike, decl, Kf)
+                n_ = g.small((1, 2, 3))
+                S0 = [g.r.uniform(0.5, 2.0) for _ in range(n_)]
+                vol0 = [g.r.uniform(0.1, 0.8) for _ in range(n_)]
+                t0 = [g.r.uniform(0.2, 2.0) for _ in range(n_)]
+                T_ = lambda xs: torch.tensor(xs, dtype=torch.float64)
+                X = T_(S0 if gs == "spot" else [s_ / Kf for s_ in S0] if gs == "moneyness" else [math.log(s_ / Kf) for s_ in S0])
+                VP = T_(vol0 if given_vol == "volatility" else [v_ * v_ for v_ in vol0])
+                TM = T_(t0)
+                Sx = (X if gs == "spot" else X * Kf if gs == "moneyness" else X.exp() * Kf).detach().clone()
+                Vx = (VP if given_vol == "volatility" else VP.sqrt()).detach().clone()
+                params = {gs: X, given_vol: VP, "time_to_maturity": TM}
+                if has_strike:
+                    params["strike"] = K
+                scale = g.choice([1.5, 0.75, 2.0])
+                pass_scale = fallback is None or (decl != "partial-positional" and g.chance(0.6))
+                if pass_scale:
+                    params["scale"] = torch.tensor(scale, dtype=torch.float64) if g.chance(0.3) else scale
+                used = scale if pass_scale else fallback
+                x_of = (lambda S: S) if (p_spot == "spot" or with_strike) else (lambda S: S / Kf)
+                ref = harness_greeks(torch, lambda S, t, v: used * core(x_of(S), v, t, torch), Sx, TM, Vx)[base]
+                st, val, _ = call_impl(getattr(ag, greek), pricer, **params)
+                case = {"autogreek": greek, "pricer_declared_as": decl, "signature": desc, "given": [given_spot, given_vol], "pricer_params": [p_spot, p_vol],
+                        "pricer_has_strike": with_strike, "form": form, "S": S0, "vol": vol0, "t": t0, "K": Kf, "strike_given_as": strike_form if has_strike else None,
+                        "scale_passed": scale if pass_scale else None, "scale_in_force": used}
+                ctx.case(case, True, tag="autogreek_declared")
+                ctx.stats[f"autogreek_declared={decl}:{greek}"] += 1
+                ctx.traces += 1
+                key = f"autogreek.{greek}:pricer-declared[{decl}]"
+                if st != "ok":
+                    ctx.fail(f"autogreek.{greek} raised on a smooth user pricer declared as {desc}", case, key=key + ":error", detail=val)
+                    continue
+                # as in the section above: two double-precision reverse-mode derivatives of one smooth function on a tame box
+                bad = first_mismatch(val, ref, 1e-9, 1.0) if tuple(val.shape) == tuple(ref.shape) else (None, list(val.shape), list(ref.shape))
+                if bad:
+                    ctx.fail(f"autogreek.{greek} of a user pricer declared as {desc} is not the derivative of that pricer at the values passed "
+                             "(a keyword-only / defaulted / partially bound parameter must receive the value given to autogreek)", case, key=key,
+                             detail={"element": bad[0], "autogreek": bad[1], "derivative_of_pricer": bad[2]})
     # ---------------- sessions: several automatic Greeks on the same caller tensors, float64, judged to double precision
     import pfhedge.nn.functional as fnl
 
@@ -815,4 +1227,9 @@ def check(ctx):
              "(v >= 2e-4 or t >= 1e-5, log-moneyness ~ v sqrt t), element by element vs the harness's derivative of the real price and vs the model "
              "(ops bs, bs_dual); autogreek on user pricers with given parameterisation x pricer parameter names chosen independently, broadcastable "
              "shapes, volatility down to 2e-4, pricers in log / sqrt / Black-Scholes-like functions of the volatility; "
+             "user pricers declared with keyword-only / defaulted / partially bound parameters, as methods and callable objects (9 declarations x "
+             "delta, gamma, vega, theta, gamma_from_delta on every tier; defaults and bindings hold decoy values), the Black-Scholes prices behind "
+             "keyword-only wrappers and functools.partial keyword bindings (also vs the model, op bs_dual); every family x Greek x global state "
+             "(no_grad, set_grad_enabled(False), inference_mode, default dtype float64 with float64 / float32 data, both) through the module, its "
+             "forward, the functional form or autogreek - routes independent of the caller's gradient mode must answer, values must be derivatives; "
              "non-trivial = t != 1 or K != 1 (closed forms), all others; distinct = sha1 of canonical case")
